@@ -1,2 +1,225 @@
-(* placeholder while the proofs are in progress *)
+(* C12 - Dictionary serialisation round-trips every model object without loss.
+   Property theorems only: each is closed by `exact` of a lemma proved in
+   proofs/Codec*.v, with Print Assumptions beneath it.
+
+   Reading guide.  [pyval] is the universe of Python values, [VObj c fs] an
+   object of model class c with attribute list fs.  [wf idf v] says that v is
+   (built from) objects as they exist after construction: attribute names of
+   the schema, a fixed point of its own constructor (converters applied,
+   validators pass, __attrs_post_init__ changes nothing), declared types in
+   depth, metadata values plain, get_data = None (DESIGN 7).
+   [idf] (object ids), [swhid_str]/[swhid_parse] (SWHID text, property C08) and
+   [dateparse] (dateutil) are universally quantified: nothing is assumed of
+   idf and dateparse; of the SWHID pair only parse (print x) = x on valid
+   SWHIDs and that the printed form is not empty (satisfied by the concrete
+   pair, C12_swhid_contract_satisfiable). *)
+From Coq Require Import List NArith ZArith Bool.
+From SWH.lib Require Import Bytes.
+From SWH Require Import Generated.
 From SWH.model Require Import Codec.
+From SWH.proofs Require Import CodecProofs CodecRoundtrip CodecLegacy.
+Import ListNotations.
+
+Definition swhid_contract (swhid_str : swhid_kind -> text -> bytes -> text)
+                          (swhid_parse : swhid_kind -> text -> result (text * bytes)) : Prop :=
+  (forall k t i, In t (swhid_tags k) -> length i = 20%nat -> wf_bytes i = true ->
+                 swhid_parse k (swhid_str k t i) = Ok (t, i))
+  /\ (forall k t i, swhid_str k t i <> []).
+
+(* The schema-generic codec.  For EVERY schema with distinct field names in
+   which each elided-when-None field defaults to None, every validator and
+   post-init hook: decoding the dictionary of an attribute list with
+   BaseModel.from_dict (cls( **d)) equals constructing from the attribute
+   values themselves, provided each value survives dictify up to its field's
+   converter.  On an object (fixed point of the constructor) this is
+   from_dict (to_dict o) = o; the six classes without override are instances. *)
+Theorem C12_generic_roundtrip : forall swhid_str s val post mk fs,
+  wf_schema s -> map fst fs = map fname s ->
+  Forall2 (fun f nv => apply_conv (fconv f) (dictify swhid_str (snd nv)) = apply_conv (fconv f) (snd nv)) s fs ->
+  construct_g s val post mk (to_dict_g swhid_str s fs) = construct_g s val post mk (as_kwargs fs).
+Proof. exact generic_roundtrip. Qed.
+Print Assumptions C12_generic_roundtrip.
+
+(* All 18 classes at once: from_dict (to_dict o) returns o itself, and the
+   dictionary handed to from_dict is unchanged. *)
+Theorem C12_roundtrip_all : forall idf swhid_str swhid_parse dateparse,
+  swhid_contract swhid_str swhid_parse ->
+  forall c fs, wf idf (VObj c fs) ->
+  from_dict idf swhid_str swhid_parse dateparse c (to_dict swhid_str (VObj c fs)) =
+  (Ok (VObj c fs), to_dict swhid_str (VObj c fs)).
+Proof. intros idf ss sp dp [H1 H2]. exact (roundtrip_all idf ss sp dp H1 H2). Qed.
+Print Assumptions C12_roundtrip_all.
+
+(* The per-class statements (instances of the above, kept separate so that a
+   change of one override breaks one theorem). *)
+Definition roundtrip_of (c : cls) : Prop :=
+  forall idf swhid_str swhid_parse dateparse, swhid_contract swhid_str swhid_parse ->
+  forall fs, wf idf (VObj c fs) ->
+  fst (from_dict idf swhid_str swhid_parse dateparse c (to_dict swhid_str (VObj c fs))) = Ok (VObj c fs).
+
+Lemma roundtrip_of_all : forall c, roundtrip_of c.
+Proof. intros c idf ss sp dp [H1 H2] fs H. exact (roundtrip_class idf ss sp dp H1 H2 c fs H). Qed.
+
+Theorem C12_roundtrip_Person : roundtrip_of cPerson. Proof. exact (roundtrip_of_all cPerson). Qed.
+Print Assumptions C12_roundtrip_Person.
+Theorem C12_roundtrip_Timestamp : roundtrip_of cTimestamp. Proof. exact (roundtrip_of_all cTimestamp). Qed.
+Print Assumptions C12_roundtrip_Timestamp.
+Theorem C12_roundtrip_TimestampWithTimezone : roundtrip_of cTimestampWithTimezone.
+Proof. exact (roundtrip_of_all cTimestampWithTimezone). Qed.
+Print Assumptions C12_roundtrip_TimestampWithTimezone.
+Theorem C12_roundtrip_Origin : roundtrip_of cOrigin. Proof. exact (roundtrip_of_all cOrigin). Qed.
+Print Assumptions C12_roundtrip_Origin.
+Theorem C12_roundtrip_OriginVisit : roundtrip_of cOriginVisit. Proof. exact (roundtrip_of_all cOriginVisit). Qed.
+Print Assumptions C12_roundtrip_OriginVisit.
+Theorem C12_roundtrip_OriginVisitStatus : roundtrip_of cOriginVisitStatus.
+Proof. exact (roundtrip_of_all cOriginVisitStatus). Qed.
+Print Assumptions C12_roundtrip_OriginVisitStatus.
+Theorem C12_roundtrip_SnapshotBranch : roundtrip_of cSnapshotBranch. Proof. exact (roundtrip_of_all cSnapshotBranch). Qed.
+Print Assumptions C12_roundtrip_SnapshotBranch.
+Theorem C12_roundtrip_Snapshot : roundtrip_of cSnapshot. Proof. exact (roundtrip_of_all cSnapshot). Qed.
+Print Assumptions C12_roundtrip_Snapshot.
+Theorem C12_roundtrip_Release : roundtrip_of cRelease. Proof. exact (roundtrip_of_all cRelease). Qed.
+Print Assumptions C12_roundtrip_Release.
+Theorem C12_roundtrip_Revision : roundtrip_of cRevision. Proof. exact (roundtrip_of_all cRevision). Qed.
+Print Assumptions C12_roundtrip_Revision.
+Theorem C12_roundtrip_DirectoryEntry : roundtrip_of cDirectoryEntry. Proof. exact (roundtrip_of_all cDirectoryEntry). Qed.
+Print Assumptions C12_roundtrip_DirectoryEntry.
+Theorem C12_roundtrip_Directory : roundtrip_of cDirectory. Proof. exact (roundtrip_of_all cDirectory). Qed.
+Print Assumptions C12_roundtrip_Directory.
+Theorem C12_roundtrip_Content : roundtrip_of cContent. Proof. exact (roundtrip_of_all cContent). Qed.
+Print Assumptions C12_roundtrip_Content.
+Theorem C12_roundtrip_SkippedContent : roundtrip_of cSkippedContent. Proof. exact (roundtrip_of_all cSkippedContent). Qed.
+Print Assumptions C12_roundtrip_SkippedContent.
+Theorem C12_roundtrip_MetadataAuthority : roundtrip_of cMetadataAuthority.
+Proof. exact (roundtrip_of_all cMetadataAuthority). Qed.
+Print Assumptions C12_roundtrip_MetadataAuthority.
+Theorem C12_roundtrip_MetadataFetcher : roundtrip_of cMetadataFetcher. Proof. exact (roundtrip_of_all cMetadataFetcher). Qed.
+Print Assumptions C12_roundtrip_MetadataFetcher.
+Theorem C12_roundtrip_RawExtrinsicMetadata : roundtrip_of cRawExtrinsicMetadata.
+Proof. exact (roundtrip_of_all cRawExtrinsicMetadata). Qed.
+Print Assumptions C12_roundtrip_RawExtrinsicMetadata.
+Theorem C12_roundtrip_ExtID : roundtrip_of cExtID. Proof. exact (roundtrip_of_all cExtID). Qed.
+Print Assumptions C12_roundtrip_ExtID.
+
+(* Same id: the decoded object carries the same id attribute, the id oracle
+   answers the same for it, and a content keeps its sha1_git. *)
+Theorem C12_same_id : forall idf swhid_str swhid_parse dateparse,
+  swhid_contract swhid_str swhid_parse ->
+  forall c fs, wf idf (VObj c fs) ->
+  exists fs', fst (from_dict idf swhid_str swhid_parse dateparse c (to_dict swhid_str (VObj c fs))) = Ok (VObj c fs')
+              /\ fget k_id fs' = fget k_id fs /\ idf c (fdel k_id fs') = idf c (fdel k_id fs)
+              /\ fget k_sha1_git fs' = fget k_sha1_git fs.
+Proof. intros idf ss sp dp [H1 H2]. exact (same_id idf ss sp dp H1 H2). Qed.
+Print Assumptions C12_same_id.
+
+(* Converting again yields the same dictionary. *)
+Theorem C12_to_dict_idempotent : forall idf swhid_str swhid_parse dateparse,
+  swhid_contract swhid_str swhid_parse ->
+  forall c fs, wf idf (VObj c fs) ->
+  exists o2, fst (from_dict idf swhid_str swhid_parse dateparse c (to_dict swhid_str (VObj c fs))) = Ok o2
+             /\ to_dict swhid_str o2 = to_dict swhid_str (VObj c fs).
+Proof. intros idf ss sp dp [H1 H2]. exact (to_dict_idempotent idf ss sp dp H1 H2). Qed.
+Print Assumptions C12_to_dict_idempotent.
+
+(* The dictionary form contains only plain values (None, bool, int, bytes,
+   str, datetime, tuple, list, dict): no enum member, SWHID object,
+   ImmutableDict or model object, at any depth. *)
+Theorem C12_plain : forall swhid_str idf v, wf idf v -> plain (to_dict swhid_str v) = true.
+Proof. exact plain_dictify. Qed.
+Print Assumptions C12_plain.
+
+(* Decoding never modifies the value it is given: for every class and EVERY
+   value (well formed or not, decodable or not), the caller's dictionary after
+   from_dict is the dictionary before.  Proved on the dict-command model that
+   tracks whether the code works on the caller's dict or on a copy. *)
+Theorem C12_input_untouched : forall idf swhid_str swhid_parse dateparse c v,
+  snd (from_dict idf swhid_str swhid_parse dateparse c v) = v.
+Proof. exact input_untouched. Qed.
+Print Assumptions C12_input_untouched.
+
+(* Legacy date encoding: numeric offset + negative-UTC flag, for every 16-bit
+   offset (the range is swept by the kernel), the flag only on non-positive
+   offsets, any timestamp member and any other keys. *)
+Theorem C12_legacy_offset : forall idf d off nu,
+  dget k_offset_bytes d = None -> dget k_offset d = Some (VInt off) -> dget k_negative_utc d = nu ->
+  (-32768 <= off < 32768)%Z ->
+  let neg := match nu with Some x => truthy x | None => false end in
+  (neg = true -> (off <= 0)%Z) ->
+  fst (fd_TimestampWithTimezone idf (VDict d)) =
+  fst (fd_TimestampWithTimezone idf (VDict (dset k_offset_bytes (VBytes (fmt_offset off ((off <? 0)%Z || neg))) d))).
+Proof. exact legacy_offset. Qed.
+Print Assumptions C12_legacy_offset.
+
+(* Legacy revision encoding: extra headers inside a non-empty metadata are
+   moved to extra_headers and leave the metadata; the result is stable under
+   the migration (it is what the current encoding yields).  Stated on the
+   attribute values where Revision.__attrs_post_init__ does it; the
+   dictionary-level instance is the Example legacy_extra_headers_example. *)
+Theorem C12_legacy_extra_headers : forall fs md eh eh',
+  fget k_metadata fs = VIDict md -> md <> [] -> truthy (fget k_extra_headers fs) = false ->
+  dget k_extra_headers md = Some eh -> tuplify_extra_headers eh = Ok eh' ->
+  validate cRevision (fset k_extra_headers eh' fs) = true ->
+  let fs' := fset k_metadata (VIDict (ddel k_extra_headers md)) (fset k_extra_headers eh' fs) in
+  migrate_extra_headers fs = Ok fs' /\
+  (fget k_metadata fs' = VIDict (ddel k_extra_headers md) -> migrate_extra_headers fs' = Ok fs').
+Proof. exact legacy_extra_headers. Qed.
+Print Assumptions C12_legacy_extra_headers.
+
+(* Legacy metadata target: {"type": "origin", "target": url, ...} decodes to
+   what {"target": str(Origin(url).swhid()), ...} decodes to (any other keys,
+   decodable or not). *)
+Theorem C12_legacy_metadata_target : forall idf swhid_str swhid_parse d url w,
+  dget k_type d = Some (VStr s_origin) -> dget k_target d = Some url ->
+  origin_swhid_str idf swhid_str url = Ok w ->
+  fst (fd_RawExtrinsicMetadata idf swhid_str swhid_parse (VDict d)) =
+  fst (fd_RawExtrinsicMetadata idf swhid_str swhid_parse (VDict (dset k_target w (ddel k_type d)))).
+Proof. exact legacy_metadata_target. Qed.
+Print Assumptions C12_legacy_metadata_target.
+
+(* The code before the fix (RawExtrinsicMetadata.from_dict without d = dict(d))
+   modifies its argument. *)
+Theorem C12_input_untouched_refuted_old :
+  exists v, snd (from_dict_old_c cRawExtrinsicMetadata v) <> v.
+Proof. exact input_untouched_refuted_old. Qed.
+Print Assumptions C12_input_untouched_refuted_old.
+
+(* The code before the fix (ExtID.from_dict without id=d.get("id", b"")) loses an
+   explicit id; the code as it is now does not. *)
+Theorem C12_extid_roundtrip_refuted_old :
+  exists fs, wf idf_c (VObj cExtID fs) /\
+             fst (from_dict_old_c cExtID (to_dict_c (VObj cExtID fs))) <> Ok (VObj cExtID fs) /\
+             fst (from_dict_c cExtID (to_dict_c (VObj cExtID fs))) = Ok (VObj cExtID fs).
+Proof. exact extid_roundtrip_refuted_old. Qed.
+Print Assumptions C12_extid_roundtrip_refuted_old.
+
+(* Stricter reading, kept visible: raw_manifest has no validator; a Directory
+   constructed with a model object as raw_manifest (outside its declared type
+   Optional[bytes]) does not round-trip. *)
+Theorem C12_roundtrip_refuted_untyped_raw_manifest :
+  exists fs, construct idf_c cDirectory (as_kwargs fs) = Ok (VObj cDirectory fs) /\
+             fst (from_dict_c cDirectory (to_dict_c (VObj cDirectory fs))) <> Ok (VObj cDirectory fs).
+Proof. exact roundtrip_refuted_untyped_raw_manifest. Qed.
+Print Assumptions C12_roundtrip_refuted_untyped_raw_manifest.
+
+(* Table side condition: names, order, has-default and has-converter of every
+   field of the 18 hard-coded schemas equal the attrs tables regenerated from
+   /repo (Generated.FIELDS_<Class>). *)
+Theorem C12_schema_matches_generated : forall c, schema_view c = gen_view (generated_fields c).
+Proof. exact schema_matches_generated. Qed.
+Print Assumptions C12_schema_matches_generated.
+
+(* Non-vacuity: a release with an author and no date, metadata set, message
+   and raw_manifest None is well formed, round-trips, and its dictionary has no
+   raw_manifest key. *)
+Theorem C12_valid_satisfiable : wf idf_c (VObj cRelease release1) /\
+  from_dict_c cRelease (to_dict_c (VObj cRelease release1)) =
+    (Ok (VObj cRelease release1), to_dict_c (VObj cRelease release1)) /\
+  dget k_raw_manifest (match to_dict_c (VObj cRelease release1) with VDict d => d | _ => [] end) = None.
+Proof. exact valid_satisfiable. Qed.
+Print Assumptions C12_valid_satisfiable.
+
+(* Non-vacuity of the SWHID contract: the concrete printer / parser used by the
+   extracted model satisfies it. *)
+Theorem C12_swhid_contract_satisfiable : swhid_contract swhid_str_c swhid_parse_c.
+Proof. exact (conj swhid_c_pair_ok swhid_c_nonempty). Qed.
+Print Assumptions C12_swhid_contract_satisfiable.
